@@ -254,3 +254,17 @@ try:
     body_range(0, 0)
 except Exception:
     pass
+
+
+@obligation(pre="0 <= first <= 5 and 0 <= second <= 5 and first != second", witnesses=(0,), timeout=240)
+def body_generic_history(first: int, second: int) -> int:
+    """convert through a subscripted generic dataclass does not depend on which equal-comparing type argument was subscripted before"""
+    from props import shared as _sh
+    n = 0
+    a = b = 0
+    for k in range(6):
+        if first == k:
+            a = k
+        if second == k:
+            b = k
+    return _sh.check_generic_history(a, b)
